@@ -2,6 +2,7 @@ package props
 
 import (
 	"go/token"
+	"strings"
 
 	"golang.org/x/tools/go/ssa"
 
@@ -270,6 +271,118 @@ func c19() []*Ob {
 							c.Violation("sibling:"+name+":mapping", p.Pos(), "%s parses the query with a mapping that does not come from as.mp.GetMapping(): fractions searched before and after a restart would use different query trees", name)
 						}
 					}
+				}
+			}},
+		{Prop: "C19", ID: "C19.6", Engine: "DOM", Floor: 1,
+			Desc: "a partial result is persisted whole: AggregatableSamples.MarshalJSON copies every bin of SamplesByBin into the JSON shadow (the store into the shadow map is under no condition besides the range loop) — a bin with Total == 0 still carries its NotExists count and its bucket",
+			Check: func(c *Ctx) {
+				fn := c.Fn("(*seq.AggregatableSamples).MarshalJSON")
+				if fn == nil {
+					return
+				}
+				n := 0
+				for _, f := range WithClosures(fn) {
+					for _, b := range f.Blocks {
+						for _, in := range b.Instrs {
+							mu, ok := in.(*ssa.MapUpdate)
+							if !ok || !strings.Contains(mu.Map.Type().String(), "SamplesContainer") {
+								continue
+							}
+							n++
+							extra := 0
+							for _, fact := range FactsAt(b) {
+								if e, isE := fact.Cond.(*ssa.Extract); isE {
+									if _, isNext := e.Tuple.(*ssa.Next); isNext {
+										continue
+									}
+								}
+								extra++
+							}
+							if extra == 0 && InLoop(b) {
+								c.Site(mu.Pos(), "every bin is written to the persisted form")
+							} else {
+								c.Violation("dom:AggregatableSamples.MarshalJSON:every-bin", mu.Pos(), "MarshalJSON writes a bin only under %d extra condition(s): bins that are skipped (for example those whose documents all lack the aggregated field: Total == 0, NotExists > 0) are missing from the finished asynchronous result but present in the synchronous one", extra)
+							}
+						}
+					}
+				}
+				if n == 0 {
+					c.Undecided("dom:AggregatableSamples.MarshalJSON:no-copy", fn.Pos(), "MarshalJSON no longer copies SamplesByBin into a map")
+				}
+			}},
+		{Prop: "C19", ID: "C19.7", Engine: "ERRFLOW(classify)", Floor: 1,
+			Desc: "a failing replica is not mistaken for 'this shard does not have the request': in the proxy's FetchAsyncSearchResult every way out of the failure branch of the per-replica call (on to the next replica, out of the loop) is taken under status.Code(err) == NotFound, otherwise the error is returned — skipping a shard whose owner answered Unavailable reports a finished result that lacks that shard",
+			Check: func(c *Ctx) {
+				fn := c.Fn("(*proxy/search.Ingestor).FetchAsyncSearchResult")
+				if fn == nil {
+					return
+				}
+				n := 0
+				for _, call := range CallsIn(fn, func(cl ssa.CallInstruction) bool {
+					return strings.HasSuffix(CallName(cl), "FetchAsyncSearchResult") && cl.Common().IsInvoke()
+				}) {
+					e := ErrorResult(call)
+					if e == nil {
+						continue
+					}
+					n++
+					isErrNonNil := func(f Fact) bool {
+						bo, ok := f.Cond.(*ssa.BinOp)
+						if !ok || !(IsNilConst(bo.X) || IsNilConst(bo.Y)) {
+							return false
+						}
+						other := bo.X
+						if IsNilConst(bo.X) {
+							other = bo.Y
+						}
+						return SameValue(other, e) && (bo.Op == token.NEQ) == f.Val
+					}
+					isNotFound := func(f Fact) bool {
+						bo, ok := f.Cond.(*ssa.BinOp)
+						if !ok || (bo.Op != token.EQL && bo.Op != token.NEQ) || (bo.Op == token.EQL) != f.Val {
+							return false
+						}
+						for _, side := range []ssa.Value{bo.X, bo.Y} {
+							if cl, ok := side.(*ssa.Call); ok && strings.HasSuffix(CallName(cl), "status.Code") {
+								return true
+							}
+						}
+						return false
+					}
+					inFail := func(b *ssa.BasicBlock) bool {
+						for _, f := range FactsAt(b) {
+							if isErrNonNil(f) {
+								return true
+							}
+						}
+						return false
+					}
+					bad := 0
+					for _, b := range fn.Blocks {
+						if !inFail(b) {
+							continue
+						}
+						for _, s := range b.Succs {
+							if inFail(s) {
+								continue
+							}
+							okEdge := false
+							for _, f := range FactsOnEdge(b, s) {
+								if isNotFound(f) {
+									okEdge = true
+								}
+							}
+							if okEdge {
+								c.Site(b.Instrs[len(b.Instrs)-1].Pos(), "the failure branch is left only for a NotFound answer")
+							} else {
+								bad++
+								c.Violation("errflow:FetchAsyncSearchResult:replica-error-skipped", b.Instrs[len(b.Instrs)-1].Pos(), "the proxy goes on after a replica error without having classified it as NotFound: when the replica that owns the search is unavailable and another one answers NotFound, the shard is skipped and the result is reported done without it")
+							}
+						}
+					}
+				}
+				if n == 0 {
+					c.Undecided("errflow:FetchAsyncSearchResult:no-call", fn.Pos(), "no per-replica FetchAsyncSearchResult call found")
 				}
 			}},
 		{Prop: "C19", ID: "C19.5", Engine: "PROV+SIBLING", Floor: 1,
